@@ -172,7 +172,16 @@ fn tree_bfs_cfg(version: u16, npaths: usize, oracles: Oracles, burst_len: usize)
 /// Flat sibling alphabet: create/remove of n same-length names in one storage
 /// (closure = every insertion and removal order, every sibling-tree shape).
 fn flat_bfs_cfg(version: u16, n: usize, with_storage: bool, oracles: Oracles) -> BfsCfg {
-    let names = ["m", "d", "x", "h", "f", "t", "b"];
+    flat_bfs_names(version, &["m", "d", "x", "h", "f", "t", "b"][..n], with_storage, oracles)
+}
+
+/// Same-length ASCII siblings that differ in one unit taken from both sides of the letters:
+/// '[' '_' '`' sort after every (upper-cased) letter, '{' after those; none of them is a case
+/// variant of another, so any case folding other than "a-z -> A-Z" collides or reorders here.
+const PUNCT_SIBLINGS: [&str; 5] = ["ab", "a_", "a`", "a{", "a["];
+
+fn flat_bfs_names(version: u16, names: &[&str], with_storage: bool, oracles: Oracles) -> BfsCfg {
+    let n = names.len();
     let mut ops = Vec::new();
     for nm in &names[..n] {
         ops.push(Op::CreateStream(format!("/{}", nm)));
@@ -196,6 +205,7 @@ fn c01(tier: &str, thorough: bool) -> i32 {
         add_bfs(&ctx, &mut tot, "tree", &tree_bfs_cfg(v, if thorough { 5 } else { 4 }, o, 0));
         add_bfs(&ctx, &mut tot, "tree+bursts", &tree_bfs_cfg(v, if thorough { 4 } else { 3 }, o, if thorough { 3 } else { 2 }));
         add_bfs(&ctx, &mut tot, "flat siblings", &flat_bfs_cfg(v, 5, thorough, o));
+        add_bfs(&ctx, &mut tot, "punctuation siblings", &flat_bfs_names(v, &PUNCT_SIBLINGS, false, o));
         let sizes = if thorough { sizes_thorough(v) } else { sizes_quick(v) };
         let a = DataAlpha { paths: vec!["/s", "/t"], rewrite: sizes.clone(), setlen: vec![], append: vec![], patch: vec![], remove: true };
         add_enum(
@@ -224,6 +234,7 @@ fn c02(tier: &str, thorough: bool) -> i32 {
     for v in [3u16, 4] {
         add_bfs(&ctx, &mut tot, "tree", &tree_bfs_cfg(v, if thorough { 5 } else { 4 }, o, 0));
         add_bfs(&ctx, &mut tot, "flat siblings", &flat_bfs_cfg(v, 5, thorough, o));
+        add_bfs(&ctx, &mut tot, "punctuation siblings", &flat_bfs_names(v, &PUNCT_SIBLINGS, false, o));
         let sizes = if thorough { sizes_thorough(v) } else { sizes_quick(v) };
         let a = DataAlpha {
             paths: vec!["/s", "/t"],
@@ -304,6 +315,7 @@ fn c03(tier: &str, thorough: bool) -> i32 {
     for v in [3u16, 4] {
         add_bfs(&ctx, &mut tot, "tree", &tree_bfs_cfg(v, if thorough { 5 } else { 4 }, o, 0));
         add_bfs(&ctx, &mut tot, "flat siblings", &flat_bfs_cfg(v, 5, thorough, o));
+        add_bfs(&ctx, &mut tot, "punctuation siblings", &flat_bfs_names(v, &PUNCT_SIBLINGS, false, o));
         let sizes = if thorough { sizes_thorough(v) } else { sizes_quick(v) };
         let a = DataAlpha {
             paths: vec!["/s", "/t"],
@@ -668,19 +680,25 @@ fn c07(tier: &str, thorough: bool) -> i32 {
     let ctx = leak(Ctx::new("C07", tier, level_mc(), "e1h", &["handle"]));
     common_assumptions(ctx);
     ctx.assume("a handle's own stream is never removed or overwritten through another path while the handle is held (the property speaks of handles whose stream exists)");
-    ctx.set_rule("start states = every distinct image reachable by create_stream/remove_stream over the sibling names (all sibling-tree shapes x directory slot assignments the library produces); handles on every ordered choice of <= 2 streams; every action sequence up to the depth over handle ops (write, append, flush, set_len, read-all) and structural mutations of other entries (remove, overwrite, create stream/storage); handle results checked at every call; at the forced quiescent end: full dump vs model, independent checker and parse, strict reopen");
+    ctx.set_rule("start states = every distinct image reachable by create_stream/remove_stream over the sibling names (all sibling-tree shapes x directory slot assignments the library produces); handles on every ordered choice of <= 2 streams; stream contents of 300/5000/200 bytes and, in a second pass, 4095/4096/64 bytes (both sides of the mini-stream cutoff); every action sequence up to the depth over handle ops (write, append, flush, set_len, read-all) and structural mutations of other entries (remove, overwrite, create stream/storage); handle results checked at every call; at the forced quiescent end: full dump vs model, independent checker and parse, strict reopen");
     let mut seqs = 0u64;
     let mut acts = 0u64;
     for v in [3u16, 4] {
         let runs: Vec<(&[&str], usize, bool)> = if thorough { if v == 3 { vec![(&["a", "b", "c", "d"], 3, false), (&["a", "b", "c"], 3, true)] } else { vec![(&["a", "b", "c"], 3, true)] } } else { vec![(&["a", "b", "c"], 3, false)] };
         for (names, depth, rich) in runs {
             // quick: pairs of handles in V3 only (directory slots 4 per sector make V3 the richer case)
-            let st = crate::e1h::explore(ctx, v, names, depth, rich, if thorough || v == 3 { 2 } else { 1 });
+            let st = crate::e1h::explore(ctx, v, names, depth, rich, if thorough || v == 3 { 2 } else { 1 }, 0);
             ctx.note(format!("v{} names={:?} depth={} rich={}: start_states={} (state,handles) choices={} sequences={} actions={}", v, names, depth, rich, st.start_states, st.handle_choices, st.sequences, st.actions));
             seqs += st.sequences;
             acts += st.actions;
             ctx.add("start_states", st.start_states);
         }
+        // stream sizes on both sides of the 4096-byte cutoff (4095 / exactly 4096 / 64 bytes)
+        let depth = if thorough { 3 } else { 2 };
+        let st = crate::e1h::explore(ctx, v, &["a", "b", "c"], depth, thorough, 2, 1);
+        ctx.note(format!("v{} cutoff-sized fills depth={}: start_states={} (state,handles) choices={} sequences={} actions={}", v, depth, st.start_states, st.handle_choices, st.sequences, st.actions));
+        seqs += st.sequences;
+        acts += st.actions;
     }
     ctx.finish(seqs, acts)
 }
@@ -709,7 +727,7 @@ fn c09(tier: &str, thorough: bool) -> i32 {
             add(crate::e1n::coexistence(ctx, v, &few, 5), &format!("v{} coexistence k=5 over {} names", v, few.len()), ctx);
         } else {
             // quick: all ordered triples over a 22-name subset that keeps every class of name, all ordered pairs over everything
-            let sub: Vec<String> = names.iter().enumerate().filter(|(i, _)| ![1usize, 4, 6, 10, 14, 18, 19, 21, 23, 25, 27, 28, 29, 30, 31, 33, 34, 39].contains(i)).map(|(_, n)| n.clone()).collect();
+            let sub: Vec<String> = names.iter().enumerate().filter(|(i, _)| ![1usize, 4, 6, 10, 14, 18, 19, 21, 23, 25, 27, 28, 29, 30, 31, 33, 34, 39, 40, 41, 42].contains(i)).map(|(_, n)| n.clone()).collect();
             add(crate::e1n::coexistence(ctx, v, &sub, 3), &format!("v{} coexistence k=3 over {} names", v, sub.len()), ctx);
             add(crate::e1n::coexistence(ctx, v, &names, 2), &format!("v{} coexistence k=2 over {} names", v, names.len()), ctx);
             if v == 3 {
@@ -893,9 +911,19 @@ fn c05(tier: &str, thorough: bool) -> i32 {
     let ctx = leak(Ctx::new("C05", tier, "exploration", "e5", &["panic", "hang", "abort", "memory"]));
     ctx.assume("every case runs in an isolated worker process that announces the case before running it; a stall (10 s, confirmed alone with 60 s), abort or allocation failure is attributed to that case");
     ctx.assume("memory bound: peak live heap <= 4 MiB + 16 x input length, measured by a counting global allocator in the worker");
-    ctx.set_rule("for each base file (fresh, tree, mixed mini+regular, two directory sectors, full mini container, MiniFAT/FAT fill levels, three synthesised non-canonical layouts, a DIFAT-sector file; v3 and v4): every field-aware single corruption (header fields, DIFAT/FAT/MiniFAT cells, every directory entry field x value alphabet incl. special markers, self+-1, counts; all 8-bit fields through 256 values, 16-bit header fields through all 65536 values on two bases), every truncation at half-sector steps, extensions, and a field-agnostic sweep of every aligned 32-bit word x 16 values; thorough adds all pairs of 32-bit field corruptions on the small bases; script: open in both modes, walk, list, look up, read and seek in every stream. A case is distinct by (base, mutation); non-trivial = differs from the base file");
+    ctx.set_rule("for each base file (fresh, tree, mixed mini+regular, two directory sectors, full mini container, MiniFAT/FAT fill levels, three synthesised non-canonical layouts, a DIFAT-sector file; v3 and v4): every field-aware single corruption (header fields, DIFAT/FAT/MiniFAT cells, every directory entry field x value alphabet incl. special markers, self+-1, counts; all 8-bit fields through 256 values, 16-bit header fields through all 65536 values on two bases), every truncation at half-sector steps, extensions, and a field-agnostic sweep of every aligned 32-bit word x 16 values; all pairs of chain-cell corruptions (FAT cells, MiniFAT cells, start sectors x {0,1,2,3, self+-1, last, END, FREE}) on four (thorough: eight) bases; thorough adds all pairs of 32-bit field corruptions on the small bases; script: open in both modes, walk, list, look up, read and seek in every stream. A case is distinct by (base, mutation); non-trivial = differs from the base file");
     let pair_bases: Vec<&str> = if thorough { vec!["fresh-v3", "tree-v3", "dir2-v3"] } else { vec![] };
-    let (cases, scripts) = sweep_all(ctx, crate::e5::Mode::ReadOnly, thorough, &pair_bases, None);
+    let (mut cases, mut scripts) = sweep_all(ctx, crate::e5::Mode::ReadOnly, thorough, &pair_bases, None);
+    // all pairs of chain-cell corruptions (rings, tails into rings, cross-links need two wrong cells)
+    let chain_bases: Vec<&str> = if thorough { vec!["tree-v3", "mixed-v3", "minifull-v3", "dir2-v3", "synth-three-minis-v3", "synth-three-mixed-v3", "tree-v4", "mixed-v4"] } else { vec!["tree-v3", "mixed-v3", "minifull-v3", "tree-v4"] };
+    for b in chain_bases {
+        let id = format!("chains:{}", b);
+        let st = crate::e5::sweep_base(ctx, crate::e5::Mode::ReadOnly, &id, thorough, true, 16);
+        ctx.note(format!("base {}: all pairs of chain-cell corruptions: cases={} problems={} worker restarts={}", id, st.cases, st.problems, st.restarts));
+        cases += st.cases;
+        scripts += st.scripts;
+        ctx.add("worker_restarts", st.restarts);
+    }
     ctx.set("evaluations", cases);
     ctx.set("distinct_nontrivial", cases);
     ctx.finish(cases, scripts)
@@ -942,7 +970,7 @@ fn c18(tier: &str, thorough: bool) -> i32 {
     crate::watch::start(ctx, std::time::Duration::from_secs(60));
     ctx.assume("storage timestamps are pinned through the public setters, so images are comparable");
     ctx.assume("OS-level short reads are modelled by the chunking backend, not provoked on the real file");
-    ctx.set_rule("every history of a bounded set (all op sequences up to the depth over a content alphabet, plus growth seeds) is run plain, again, on a real file through cfb::create/open_rw/open, with every transfer chunked to c bytes for each c, with Interrupted on every 2nd/3rd/5th transfer, with a single 1-byte short count and a single Interrupted at every transfer index k, for each max_buffer_size and in the other format version; images must be byte-identical (logical dumps for buffer size / version)");
+    ctx.set_rule("every history of a bounded set (all op sequences up to the depth over a content alphabet, plus growth seeds) is run plain, again, on a real file through cfb::create / OpenOptions::create / open_rw / open (on a fresh path and, V4, over an existing longer file), with every transfer chunked to c bytes for each c, with Interrupted on every 2nd/3rd/5th transfer, with a single 1-byte short count and a single Interrupted at every transfer index k, for each max_buffer_size and in the other format version; images must be byte-identical (logical dumps for buffer size / version)");
     let dir = std::path::PathBuf::from(format!("/verif/target/tmp/{}", std::process::id()));
     let _ = std::fs::create_dir_all(&dir);
     let mut hists = Vec::new();
